@@ -2,9 +2,9 @@
 from lib.coqterm import cbool, clist, copt
 
 ID = "C43"
-QUICK_N = 2400
-THOROUGH_N = 60000
-SHARD = 200
+QUICK_N = 1500
+THOROUGH_N = 40000
+SHARD = 125
 COQ_PRELUDE = "From MV Require Import Model.View.\nOpen Scope N_scope.\n"
 RULE = ("a case is a history of 1..30 calls on one fresh View over a pool of 2..6 flow objects of all four types "
         "(HTTP/TCP/UDP/DNS): 70% random histories (add / mutate+update with 0-2 changed attributes among the four sort "
@@ -157,7 +157,12 @@ def gen(rng, n, tier):
                 s["z"] = rng.randint(0, 1)
         cur = [dict(s) for s in pool]
         if rng.chance(0.70):
-            ops = _random_ops(rng, cur, rng.randint(1, 30))
+            ops = []
+            if rng.chance(0.5):                    # populate the view first so that orderings are exercised
+                idxs = list(range(np_))
+                rng.shuffle(idxs)
+                ops = [["add", i] for i in idxs[:rng.randint(2, np_)]]
+            ops = (ops + _random_ops(rng, cur, rng.randint(1, 30)))[:30]
         else:
             ops = []
             while len(ops) < rng.randint(5, 24):
